@@ -31,6 +31,9 @@ ASSUMPTIONS = ["prior covariance K = the kernel's data-covariance builder (docum
 def cases(draw, max_size=14):
     m = draw(st.one_of(st.integers(1, 5), st.integers(1, max_size)))
     p = draw(st.one_of(st.integers(2, 5), st.integers(2, max_size)))
+    square_precise = draw(st.integers(0, 7)) == 0
+    if square_precise:
+        m = p = draw(st.integers(2, 7))      # an exactly determined model with precise data (see `reference`)
     base = draw(gc.gp_problems(max_n=p, min_n=p, max_d=2, max_m=1, kernels=["SE", "RQ", "White"], max_depth=2,
                                noises=("none",), allow_hetero=False))
     # gp_problems draws n in [min_n, min(6, max_n)] or [min_n, max_n]; force n == p by construction
@@ -42,7 +45,9 @@ def cases(draw, max_size=14):
                  "err_log": [draw(st.floats(-2.5, 0.5)) for _ in range(m)] if draw(st.integers(0, 4)) else [draw(st.floats(-6, -3)) for _ in range(m)],
                  "resid": [draw(st.floats(-3, 3)) for _ in range(m)],
                  "truth": [draw(st.floats(-2, 2)) for _ in range(p)],
-                 "theta_form": draw(st.sampled_from(["float", "float", "float", "int64", "int32"]))})
+                 "theta_form": draw(st.sampled_from(["float", "float", "float", "int64", "int32", "float32"]))})
+    if square_precise:
+        base.update({"square_precise": True, "A_style": "dense", "err_log": [draw(st.floats(-7, -4))] * m})
     return base
 
 
@@ -75,7 +80,10 @@ def build(case):
     sig_scale = ys * (np.sqrt(np.sum(A**2, axis=1)) + 10.0 ** case["A_log_scale"] * 1e-3)
     y_err = sig_scale * 10.0 ** np.array(case["err_log"])
     y = A @ (ys * np.array(case["truth"])) + y_err * np.array(case["resid"])
-    if case.get("theta_form", "float") != "float":
+    if case.get("theta_form") == "float32":
+        # hyper-parameters that a single-precision array holds exactly (read from a float32 file, produced by a float32 optimiser)
+        th_cov, th_mean = th_cov.astype(np.float32).astype(float), th_mean.astype(np.float32).astype(float)
+    elif case.get("theta_form", "float") != "float":
         # whole-number hyper-parameters (which a caller may hold in an integer array)
         kinds = rk.param_kinds(spec, p, case["d"])
         rc = np.round(th_cov)
@@ -86,6 +94,9 @@ def build(case):
 
 def theta_arg(case, theta):
     form = case.get("theta_form", "float")
+    if form == "float32":
+        t32 = theta.astype(np.float32)
+        return t32 if np.array_equal(t32.astype(float), theta) else theta.copy()
     return theta.copy() if form == "float" or not np.array_equal(theta, np.round(theta)) else theta.astype(form)
 
 
@@ -106,6 +117,12 @@ def reference(case, X, A, y, y_err, spec, th_cov, th_mean, use_mp=True):
         # happens to use: with precise data and fewer data than parameters I + K W has a condition number of (amplitude / error)^2
         # while the problem is as benign as A K A^T + S (an earlier version took the maximum of the two and so excused exactly that)
         kappa = min(np.linalg.cond(np.eye(p) + K @ W), np.linalg.cond(G))
+        if case.get("square_precise") and m == p and np.linalg.cond(K) < 1e3:
+            # exactly determined, full rank, precise data, a well-conditioned prior covariance: the prior hardly matters, the posterior is the weighted least-squares
+            # solution with covariance (A^T S^-1 A)^-1, whose sensitivity to the inputs is cond(A)^2 (and that of the relative
+            # spread of the errors) - both standard forms above have condition numbers of (amplitude / error)^2 here, which says
+            # nothing about the problem
+            kappa = min(kappa, 10.0 * np.linalg.cond(A) ** 2 * (y_err.max() / y_err.min()) ** 2)
     if not np.isfinite(kappa) or kappa > 1e9:
         return None, kappa
     r = y - A @ mean
@@ -190,6 +207,10 @@ def body_posterior(case, ctx):
         raise Violation(f"mean:{tag}", f"A {A.shape} ({case['A_style']}), {rk.describe(spec)}, {case['mean']}: posterior mean[{i}] {mu[i]!r} vs closed form {ref['mu'][i]!r} (tol {tol_full[i]:.3g}, kappa {kappa:.3g})")
     dK = np.sqrt(np.maximum(np.diag(ref["K"]), 1e-300))
     tolc = f * np.outer(dK, dK)
+    if case.get("square_precise"):
+        # (here the posterior covariance is orders of magnitude below the prior: judged at its own scale)
+        tolc = np.full_like(tolc, f * float(np.max(np.abs(ref["Sigma"]))))
+        ctx.event("exactly determined, precise data")
     e = np.max(np.abs(Sig - ref["Sigma"]) / tolc)
     ctx.ratio("covariance", e, 1.0)
     if not np.all(np.isfinite(Sig)) or e > 1:
@@ -280,7 +301,7 @@ def body_gradient(case, ctx):
     ctx.nontrivial((m != p or rank_deficient(A)) and theta.size >= 3)
     ctx.event("shape=" + tag)
     ctx.event("mean=" + case["mean"])
-    ctx.event("theta-form=" + (case.get("theta_form", "float") if np.array_equal(theta, np.round(theta)) else "float"))
+    ctx.event("theta-form=" + (case.get("theta_form", "float") if (np.array_equal(theta, np.round(theta)) or case.get("theta_form") == "float32") else "float"))
 
 
 # ------------------------------------------------------------------ histories on one inverter object
